@@ -581,7 +581,12 @@ class Optimizer(object):
                 n = min(len(self._initial_samples), n_points)
                 X = self._initial_samples[:n]
                 self._initial_samples = self._initial_samples[n:]
-                X = X + self._ask_random_points(size=(n_points - n))
+                # the random points that complete the batch must also differ from the initial
+                # points handed out with them
+                self.sampled.extend(X)
+                X_random = self._ask_random_points(size=(n_points - n))
+                self.sampled.extend(X_random)
+                return X + X_random
             self.sampled.extend(X)
             return X
 
